@@ -8,7 +8,8 @@ scratch copy (outside /repo and /verif, removed at the end) and the function's c
   loops   every `for`/`while` under a loop contract: `break` appended to the body; `for x in xs` over xs[1:];
           `range(n)` over range(n - 1); `enumerate(xs)` over xs[:-1]
   harmless  behaviour-preserving rewrites: each local variable renamed throughout its function; the value of
-          each simple assignment taken through a fresh temporary.  Here the question is the opposite one: a
+          each simple assignment taken through a fresh temporary; if/else exchanged under a negated test; two adjacent
+          call-free assignments to different locals exchanged.  Here the question is the opposite one: a
           VIOLATION would be a false alarm (undecided - function out of the subset, contract names a local that
           no longer exists - is allowed and counted)
 
@@ -181,6 +182,39 @@ def harmless_mutants(src, fn):
                                 body.insert(i, first)
                                 return
             yield n.lineno, 'value of `%s = ...` through a temporary' % n.targets[0].id, rebuilt(mut)
+    # (c) two adjacent assignments to different local names, neither reading the other's target, both without a
+    #     call (nothing whose order could be observed), exchanged
+    def pure(e):
+        return not any(isinstance(x, (ast.Call, ast.Yield, ast.YieldFrom, ast.Await, ast.NamedExpr)) for x in ast.walk(e))
+
+    def names(e):
+        return {x.id for x in ast.walk(e) if isinstance(x, ast.Name)}
+    for parent in ast.walk(fn):
+        for field in ('body', 'orelse', 'finalbody'):
+            body = getattr(parent, field, None)
+            if not isinstance(body, list):
+                continue
+            for i in range(len(body) - 1):
+                a, b = body[i], body[i + 1]
+                if not (isinstance(a, ast.Assign) and isinstance(b, ast.Assign) and len(a.targets) == 1 and len(b.targets) == 1
+                        and isinstance(a.targets[0], ast.Name) and isinstance(b.targets[0], ast.Name)):
+                    continue
+                ta, tb = a.targets[0].id, b.targets[0].id
+                if ta == tb or not pure(a.value) or not pure(b.value) or ta in names(b.value) or tb in names(a.value):
+                    continue
+                la, ca = a.lineno, a.col_offset
+
+                def swap2(f, la=la, ca=ca):
+                    for p_ in ast.walk(f):
+                        for fld in ('body', 'orelse', 'finalbody'):
+                            bd = getattr(p_, fld, None)
+                            if not isinstance(bd, list):
+                                continue
+                            for j in range(len(bd) - 1):
+                                if isinstance(bd[j], ast.Assign) and bd[j].lineno == la and bd[j].col_offset == ca:
+                                    bd[j], bd[j + 1] = bd[j + 1], bd[j]
+                                    return
+                yield a.lineno, 'independent assignments `%s`, `%s` exchanged' % (ta, tb), rebuilt(swap2)
     for n in ast.walk(fn):
         if isinstance(n, ast.If) and n.orelse and not (len(n.orelse) == 1 and isinstance(n.orelse[0], ast.If)):
             ln, col = n.lineno, n.col_offset
